@@ -160,7 +160,7 @@ def run_shard(shard: Dict[str, Any]) -> Acc:
         inp = gen_input(rng)
         nontrivial = inp["cycles"] >= 2 and len(set(inp["data_state"])) > 1
         acc.case(bp.phash(inp), nontrivial, sample=inp if i < 3 else None)
-        check_input(inp, acc)
+        common.guarded(acc, check_input, inp, acc, case={"library": inp})
     return acc
 
 
